@@ -104,3 +104,58 @@ def sizes_around(limit=1024):
             if 1 <= s <= limit and s not in out:
                 out.append(s)
     return sorted(out)
+
+
+# ---- the front end --------------------------------------------------------------------------------------------------
+FRONT_MODULES = ["pyab_experiment.codegen.python.python_generator", "pyab_experiment.language.grammar",
+                 "pyab_experiment.language.lexer", "pyab_experiment.data_structures.syntax_tree",
+                 "pyab_experiment.utils.wraper_functions", "pyab_experiment.experiment_evaluator"]
+
+
+def frontend_constants(lo=2, hi=2000):
+    """Integer constants that the front-end modules COMPARE something with, slice by, or count up to (read from their
+    source with `ast`): where a grammar action, a validator or the generator treats 'more than N members / characters /
+    groups / lines' differently, N is one of them.  The program families add shapes of the sizes around every such
+    constant (tuple members, groups, and/or atoms, else-if links, identifier and string lengths, digits).  On the
+    pinned tree the set is empty (the only comparisons are with 0 and 1)."""
+    if "f" in _CACHE:
+        return _CACHE["f"]
+    import ast
+    import importlib.util
+    found = set()
+
+    def ints(node):
+        for n in ast.walk(node):
+            if isinstance(n, ast.Constant) and isinstance(n.value, int) and not isinstance(n.value, bool) and lo <= n.value <= hi:
+                yield n.value
+    for mod in FRONT_MODULES:
+        try:
+            spec = importlib.util.find_spec(mod)
+            tree = ast.parse(open(spec.origin, encoding="utf-8").read())
+        except Exception:
+            continue
+        for node in ast.walk(tree):
+            if isinstance(node, ast.Compare):
+                found.update(ints(node))
+            elif isinstance(node, ast.Slice):
+                for b in (node.lower, node.upper):
+                    if b is not None:
+                        found.update(ints(b))
+            elif isinstance(node, ast.Call) and isinstance(node.func, ast.Name) and node.func.id in ("range", "islice", "min", "max", "divmod"):
+                for a in node.args:
+                    found.update(ints(a))
+            elif isinstance(node, ast.MatchSequence):
+                n = len(node.patterns)
+                if lo <= n <= hi:
+                    found.add(n)
+    _CACHE["f"] = sorted(found)
+    return _CACHE["f"]
+
+
+def frontend_sizes(limit=300):
+    out = []
+    for c in frontend_constants():
+        for s_ in (c - 1, c, c + 1):
+            if 2 <= s_ <= limit and s_ not in out:
+                out.append(s_)
+    return sorted(out)
